@@ -51,6 +51,9 @@ type Script struct {
 	ListErrAt int `json:"list_err_at,omitempty"`
 	// Inner != "": the registry that is wrapped is itself a wrapper (access | select) around the backend,
 	// with a policy of its own that allows everything (InnerRejects false) or rejects everything
+	// CtxDone: the call is made with a context that is already cancelled (a rejection is a rejection
+	// all the same; the policy is not a matter of the caller's patience)
+	CtxDone bool `json:"ctx_done,omitempty"`
 	// IDFrom (PushBlobChunkedResume): the upload id is the one of an upload started, through the same
 	// wrapper, in repository IDFrom just before (when the policy lets that through)
 	IDFrom       string `json:"id_from,omitempty"`
@@ -73,6 +76,11 @@ func (s Script) verdict(name string, kind int) int {
 
 func run(s Script, v *vt.V) {
 	ctx := context.WithValue(context.Background(), "k", "caller's context")
+	if s.CtxDone {
+		c, cancel := context.WithCancel(ctx)
+		cancel()
+		ctx = c
+	}
 	r := rec.New(nil)
 	r.Canned.Data = []byte("backend bytes")
 	r.Canned.Desc = ociregistry.Descriptor{Digest: digest.FromBytes(r.Canned.Data), Size: int64(len(r.Canned.Data)), MediaType: "application/x-sentinel"}
@@ -494,6 +502,7 @@ func genScript(t *rapid.T) Script {
 	case "Repositories", "Tags":
 		s.Start = rapid.SampledFrom([]string{"", "a", "b", "zz"}).Draw(t, "start")
 	}
+	s.CtxDone = rapid.IntRange(0, 5).Draw(t, "ctxDone") == 0
 	if rapid.IntRange(0, 3).Draw(t, "stacked") == 0 {
 		s.Inner = rapid.SampledFrom([]string{"access", "select"}).Draw(t, "inner")
 		s.InnerRejects = rapid.Bool().Draw(t, "innerRejects")
@@ -511,7 +520,7 @@ func genScript(t *rapid.T) Script {
 var prop = &vt.Prop[Script]{
 	ID:   "C12",
 	Name: "FilterWrappersRandomPolicies",
-	Rule: "wrapper in {AccessChecker, Select}; policy = random table (repository name, access kind) -> allow | one of three distinct errors, with a default row (pure function; Select's depends on the name only); method = each of the 18 Interface methods with repositories from {a, b, a/b, c, the empty name, '../a'} (the policy is asked about whatever name the caller passes; mount: source and target, incl. the same repository), resume ids {empty, opaque, shaped like the upload location of each repository} x offsets {-1,0,1,100}, listing start points, backend repository listings incl. a repository named '*'; recording backend that accepts everything; a third of the resumes present the id of an upload just started through the same wrapper in another (or the same) repository; the sequence of a rejected Tags / Referrers call is run a second time; a quarter of the wrappers are laid over a registry that is itself an AccessChecker/Select wrapper with a counting policy of its own (allow-all or reject-all): that wrapper is the wrapped registry, so a call the outer policy rejects does not reach its policy either and fails with the outer policy's error; oracle = policy rejects => zero backend calls, the policy's own error (Select: name-unknown for read/list/delete, denied for write), no data; policy allows => exactly one backend call with the caller's context and arguments, the backend's own reader/writer/results (writers are used: Write+Commit must land in the backend's session); repository listings = backend's list filtered by the read verdict; a backend listing that breaks off by yielding a name together with an error reaches the consumer as an error without any hidden name; non-trivial = some involved repository is rejected, or a listing is filtered; distinct = (wrapper, method, policy, arguments)",
+	Rule: "wrapper in {AccessChecker, Select}; policy = random table (repository name, access kind) -> allow | one of three distinct errors, with a default row (pure function; Select's depends on the name only); method = each of the 18 Interface methods with repositories from {a, b, a/b, c, the empty name, '../a'} (the policy is asked about whatever name the caller passes; mount: source and target, incl. the same repository), resume ids {empty, opaque, shaped like the upload location of each repository} x offsets {-1,0,1,100}, listing start points, backend repository listings incl. a repository named '*'; recording backend that accepts everything; a sixth of the calls are made with an already cancelled context; a third of the resumes present the id of an upload just started through the same wrapper in another (or the same) repository; the sequence of a rejected Tags / Referrers call is run a second time; a quarter of the wrappers are laid over a registry that is itself an AccessChecker/Select wrapper with a counting policy of its own (allow-all or reject-all): that wrapper is the wrapped registry, so a call the outer policy rejects does not reach its policy either and fails with the outer policy's error; oracle = policy rejects => zero backend calls, the policy's own error (Select: name-unknown for read/list/delete, denied for write), no data; policy allows => exactly one backend call with the caller's context and arguments, the backend's own reader/writer/results (writers are used: Write+Commit must land in the backend's session); repository listings = backend's list filtered by the read verdict; a backend listing that breaks off by yielding a name together with an error reaches the consumer as an error without any hidden name; non-trivial = some involved repository is rejected, or a listing is filtered; distinct = (wrapper, method, policy, arguments)",
 	Gen:  genScript,
 	Run:  run,
 }
